@@ -18,6 +18,7 @@ from harness.checks import c11
 PMAP_TIMEOUT = int(os.environ.get("VERIF_PMAP_TIMEOUT", "300"))
 NONEI = 999
 COMBOS = [("dense", "default"), ("sparse", "default"), ("dense", "glpk"), ("sparse", "glpk")]
+SEQ_COMBOS = [("dense", "default"), ("sparse", "glpk")]
 POOL = [("x", 1), ("y", 2), ("z", 3), ("w", 1), ("u", 2)]
 BOX_R = 8
 
@@ -42,6 +43,10 @@ class Gen(object):
             s = self.sz[v]
             var = {"op": "var", "v": v}
             k = r.random()
+            if s == 1 and L > 1 and k < 0.5:
+                # a scalar variable in a vector expression is broadcast (scalar coefficient)
+                return var if k < 0.25 else {"op": "smul", "k": r.choice([-2, -1, 2, 3]), "a": var, "right": r.random() < 0.3,
+                                              "form": r.choice(["int", "float", "1x1"])}
             if k < 0.25 and s == L:
                 return var if r.random() < 0.5 else {"op": "smul", "k": r.choice([-2, -1, 2, 3]), "a": var, "right": r.random() < 0.3,
                                                     "form": r.choice(["int", "float", "1x1"])}
@@ -99,8 +104,14 @@ class Gen(object):
             return {"op": "max", "args": args}
         if k < 0.75:
             return {"op": "smul", "k": r.choice([2, 3]), "a": self.convex(L, depth - 1), "right": r.random() < 0.3, "form": r.choice(["int", "float"])}
-        if k < 0.87:
+        if k < 0.82:
             return {"op": "add", "a": self.convex(L, depth - 1), "b": self.convex(L, depth - 1)}
+        if k < 0.90:
+            # single-argument max (a scalar) of vectors added to a vector expression: max(u) + max(v) + f
+            t = {"op": "max1", "a": self.affine(r.choice([2, 3]))}
+            if r.random() < 0.6:
+                t = {"op": "add", "a": t, "b": {"op": "max1", "a": self.affine(r.choice([2, 3]))}}
+            return {"op": "add", "a": t, "b": self.affine(L)} if r.random() < 0.7 else t
         # minus a concave function
         args = [self.affine(L) for _ in range(2)]
         return {"op": "neg", "a": {"op": "min", "args": args}}
@@ -200,7 +211,40 @@ def term_vars(t, out, live=None):
     return out
 
 
+def gen_matrix_form(rnd, v, n, boxed):
+    """objective c'x, one inequality A x <= b with a full matrix and a full right-hand side, optionally one equality: the form op.solve hands to
+    solvers.lp without conversion (it then works directly on the user's variable and constraints)"""
+    var = {"op": "var", "v": v}
+    sparse = rnd.random() < 0.5
+    rows = [[rnd.randint(-2, 3) for _ in range(n)] for _ in range(rnd.randint(1, 3))]
+    rhs = [rnd.randint(-2, 5) for _ in rows]
+    if boxed:
+        for i in range(n):
+            rows.append([1 if j == i else 0 for j in range(n)]); rhs.append(rnd.randint(1, 4))
+            rows.append([-1 if j == i else 0 for j in range(n)]); rhs.append(rnd.randint(0, 3))
+    cons = [{"a": {"op": "mmul", "M": rows, "a": var, "sparse": sparse}, "rel": "<=", "b": {"op": "const", "c": rhs, "form": "list"}}]
+    if rnd.random() < 0.4 and n > 1:
+        B = [[rnd.randint(-2, 2) for _ in range(n)]]
+        if not any(B[0]):
+            B[0][0] = 1
+        cons.append({"a": {"op": "mmul", "M": B, "a": var, "sparse": sparse}, "rel": "==", "b": {"op": "const", "c": [rnd.randint(-2, 2)], "form": "list"}})
+    c = [[rnd.randint(-3, 3) for _ in range(n)]]
+    if not any(c[0]):
+        c[0][0] = 1
+    obj = {"op": "mmul", "M": c, "a": var, "sparse": False}
+    envs = [{v: [rnd.randint(-3, 3) for _ in range(n)]} for _ in range(6)] + [{v: [0] * n}]
+    return {"sz": {v: n}, "vo": [v], "obj": obj, "cons": cons, "envs": envs}
+
+
 def gen_problem(rnd):
+    if rnd.random() < 0.12:
+        # two problems in matrix form that SHARE the variable: solve the first, then the second - nothing of the first may survive
+        v, n = rnd.choice([("y", 2), ("z", 3), ("u", 2)])
+        P = gen_matrix_form(rnd, v, n, True)
+        P2 = gen_matrix_form(rnd, v, n, rnd.random() < 0.3)
+        P2["envs"] = P["envs"]
+        P["seq"] = {"kind": "share", "P2": P2}
+        return P
     nv = rnd.choice([1, 2, 2, 3])
     chosen = rnd.sample(POOL, nv)
     sz = {v: s for v, s in chosen}
@@ -230,7 +274,38 @@ def gen_problem(rnd):
     for _ in range(6):
         envs.append({v: [rnd.randint(-3, 3) for _ in range(s)] for v, s in sz.items()})
     envs.append({v: [0] * s for v, s in sz.items()})
-    return {"sz": sz, "vo": sorted(live), "obj": obj, "cons": cons, "envs": envs}
+    P = {"sz": sz, "vo": sorted(live), "obj": obj, "cons": cons, "envs": envs}
+    r = rnd.random()
+    if r < 0.15 and live:
+        # then add two contradictory constraints to the solved op: the problem becomes infeasible
+        v = rnd.choice(sorted(live))
+        t = {"op": "idx", "ix": {"t": "int", "v": 0}, "a": {"op": "var", "v": v}} if rnd.random() < 0.5 else {"op": "sum", "a": {"op": "var", "v": v}}
+        P["seq"] = {"kind": "add", "extra": [{"a": t, "rel": ">=", "b": {"op": "const", "c": [50], "form": "num"}},
+                                             {"a": t, "rel": "<=", "b": {"op": "const", "c": [40], "form": "num"}}]}
+    elif r < 0.30 and len(cons) >= 2:
+        # then delete some constraints and replace the objective: typically unbounded
+        drop = sorted(rnd.sample(range(len(cons)), rnd.randint(1, len(cons) - 1)))
+        P["seq"] = {"kind": "del", "drop": drop, "obj": Gen(rnd, sz).affine(1)}
+    return P
+
+
+def seq_problem(P):
+    """the problem after the edit sequence"""
+    q = P["seq"]
+    if q["kind"] == "share":
+        return dict(q["P2"])
+    if q["kind"] == "add":
+        P2 = dict(P, cons=P["cons"] + q["extra"])
+    else:
+        P2 = dict(P, cons=[c for i, c in enumerate(P["cons"]) if i not in q["drop"]], obj=q["obj"])
+    used, live = set(), set()
+    term_vars(P2["obj"], used, live)
+    for c in P2["cons"]:
+        term_vars(c["a"], used, live)
+        term_vars(c["b"], used, live)
+    P2 = dict(P2, vo=sorted(live), sz={v: s for v, s in P["sz"].items() if v in used}, envs=[{v: e[v] for v in used} for e in P["envs"]])
+    P2.pop("seq")
+    return P2
 
 
 def clean_problem(P):
@@ -295,8 +370,25 @@ def cfun(c):
 
 
 # ------------------------------------------------------------------ real code
+def _observe(o, prob, V, cons, P):
+    o["status"] = prob.status
+    o["vars"] = {v: (None if V[v].value is None else [float(a) for a in V[v].value]) for v in P["vo"]}
+    o["mults"] = [None if c.multiplier.value is None else [float(a) for a in c.multiplier.value] for c in cons]
+    o["mlens"] = [len(c.multiplier) for c in cons]
+    o["clens"] = [len(c) for c in cons]
+    ov = prob.objective.value()          # documented: None when a variable has no value
+    o["obj"] = None if ov is None else [float(a) for a in ov]
+    o["nvars"] = len(prob.variables())
+
+
+def _mkcons(c, V):
+    a, b = c11.build(c["a"], V), c11.build(c["b"], V)
+    return (a <= b) if c["rel"] == "<=" else (a >= b) if c["rel"] == ">=" else (a == b)
+
+
 def _solve_real(P):
-    """in a child: build with the real operators and solve with the four combinations"""
+    """in a child: build with the real operators and solve with the four combinations (fresh objects each time); for an edit sequence:
+    solve, edit the SAME op (addconstraint / delconstraint / objective), solve again"""
     import cvxopt.modeling as m
     from cvxopt import matrix, solvers
     solvers.options["show_progress"] = False
@@ -307,25 +399,47 @@ def _solve_real(P):
         try:
             V = {v: m.variable(s, v) for v, s in P["sz"].items()}
             obj = c11.build(P["obj"], V)
-            cons = []
-            for c in P["cons"]:
-                a, b = c11.build(c["a"], V), c11.build(c["b"], V)
-                cons.append((a <= b) if c["rel"] == "<=" else (a >= b) if c["rel"] == ">=" else (a == b))
+            cons = [_mkcons(c, V) for c in P["cons"]]
             prob = m.op(obj, cons)
-            o["built"] = True
             prob.solve(fmt, solver)
-            o["status"] = prob.status
-            o["vars"] = {v: (None if V[v].value is None else [float(a) for a in V[v].value]) for v in P["vo"]}
-            o["mults"] = [None if c.multiplier.value is None else [float(a) for a in c.multiplier.value] for c in cons]
-            o["mlens"] = [len(c.multiplier) for c in cons]
-            o["clens"] = [len(c) for c in cons]
-            ov = prob.objective.value()          # documented: None when a variable has no value
-            o["obj"] = None if ov is None else [float(a) for a in ov]
-            o["nvars"] = len(prob.variables())
+            _observe(o, prob, V, cons, P)
         except Exception as e:
             o["raised"] = "%s: %s" % (type(e).__name__, str(e)[:120])
         out.append(o)
-    return out
+    seq = []
+    if "seq" in P:
+        q = P["seq"]
+        P2 = seq_problem(P)
+        for fmt, solver in SEQ_COMBOS:
+            o = {"raised": None}
+            try:
+                V = {v: m.variable(s, v) for v, s in P["sz"].items()}
+                cons = [_mkcons(c, V) for c in P["cons"]]
+                prob = m.op(c11.build(P["obj"], V), cons)
+                try:
+                    prob.solve(fmt, solver)
+                    o["first"] = prob.status
+                except Exception as e:
+                    o["first"] = "raised " + type(e).__name__
+                if q["kind"] == "share":
+                    cons2 = [_mkcons(c, V) for c in P2["cons"]]
+                    prob = m.op(c11.build(P2["obj"], V), cons2)
+                elif q["kind"] == "add":
+                    extra = [_mkcons(c, V) for c in q["extra"]]
+                    for c in extra:
+                        prob.addconstraint(c)
+                    cons2 = cons + extra
+                else:
+                    for i in q["drop"]:
+                        prob.delconstraint(cons[i])
+                    prob.objective = c11.build(q["obj"], V)
+                    cons2 = [c for i, c in enumerate(cons) if i not in q["drop"]]
+                prob.solve(fmt, solver)
+                _observe(o, prob, V, cons2, P2)
+            except Exception as e:
+                o["raised"] = "%s: %s" % (type(e).__name__, str(e)[:120])
+            seq.append(o)
+    return {"fresh": out, "seq": seq}
 
 
 def _job(args):
@@ -337,12 +451,18 @@ def _job(args):
     for c0 in range(0, n, 10):
         chunk = batch[c0:c0 + 10]
         st, res = isolate.run_isolated(lambda ch: [_solve_real(P) for P in ch], chunk, timeout=120)
-        if st == "ok":
-            out += [{"P": P, "obs": r} for P, r in zip(chunk, res)]
-        else:
+        if st != "ok":
+            res = []
             for P in chunk:
                 st1, res1 = isolate.run_isolated(_solve_real, P, timeout=40)
-                out.append({"P": P, "obs": res1} if st1 == "ok" else {"P": P, "crash": "%s:%s" % (st1, res1)})
+                res.append(res1 if st1 == "ok" else "%s:%s" % (st1, res1))
+        for P, r in zip(chunk, res):
+            if isinstance(r, str):
+                out.append({"P": P, "crash": r, "combos": COMBOS})
+                continue
+            out.append({"P": {k: v for k, v in P.items() if k != "seq"}, "obs": r["fresh"], "combos": COMBOS})
+            if r["seq"]:
+                out.append({"P": seq_problem(P), "obs": r["seq"], "combos": SEQ_COMBOS, "seq": P["seq"]["kind"]})
     return out
 
 
@@ -443,19 +563,20 @@ def _stage2(items):
         rows = [list(g) for g in lp["G"]] + [list(a_) for a_ in lp["A"]]
         rankdef = exactlp.rank(rows, lp["n"]) < lp["n"] or exactlp.rank([list(a_) for a_ in lp["A"]], lp["n"]) < len(lp["A"])
         c["lp"], c["w"], c["rankdef"] = lp, w, rankdef
+        c["g_rankdef"] = exactlp.rank([list(g) for g in lp["G"]], lp["n"]) < lp["n"]
         pstar = None
         if w["cls"] == "optimal":
             v = sol["value"]
             pstar = (v.numerator, v.denominator)
         c["pstar"] = pstar
         c["regular"] = exactlp.regular(lp, w["cls"])
-        judged = [not (rankdef and solver == "default") for _, solver in COMBOS]
+        judged = [not (rankdef and solver == "default") for _, solver in c["combos"]]
         ref = None
         for o, jd in zip(c["obs"], judged):
             if jd and ref is None and o.get("raised") is None and o.get("status") == "optimal" and o.get("obj"):
                 ref = o["obj"][0]
         obs, infos = [], []
-        for o, (_, solver) in zip(c["obs"], COMBOS):
+        for o, (_, solver) in zip(c["obs"], c["combos"]):
             a, info = alpha(P, lp, w["cls"], pstar, o, ref, solver == "default")
             obs.append(a); infos.append(info)
         c["alpha"], c["infos"], c["judged"] = obs, infos, judged
@@ -558,7 +679,7 @@ def run(tier, seed, replay=None):
     truths = {}
     for c, r in zip(judged_cases, p2):
         P = c["P"]
-        ck.evaluations += 4
+        ck.evaluations += len(c["combos"])
         if r["truth"] == "bad":
             ck.machinery_errors.append("TLC rejected the exact certificate proposed for %s" % json.dumps(clean_problem(P))[:300])
             continue
@@ -566,13 +687,18 @@ def run(tier, seed, replay=None):
         if not r["grid"]:
             ck.machinery_errors.append("specification: the LP's truth contradicts the problem's semantics on the grid: %s" % json.dumps(clean_problem(P))[:300])
             continue
-        ck.nontrivial(shape_class(P) + "|" + r["truth"])
-        for i, (fmt, solver) in enumerate(COMBOS):
+        ck.nontrivial(shape_class(P) + "|" + r["truth"] + ("|after-" + c["seq"] if c.get("seq") else ""))
+        seqtag = ("|after-edit-%s" % c["seq"]) if c.get("seq") else ""
+        for i, (fmt, solver) in enumerate(c["combos"]):
             if not c["judged"][i]:
                 continue
             for clause in r["failed"][i]:
                 o = c["obs"][i]
-                sig = "op.solve|%s|truth=%s|%s|solver=%s" % (clause, r["truth"], site_class(P), solver)
+                sig = "op.solve|%s|truth=%s|%s|solver=%s%s" % (clause, r["truth"], site_class(P), solver, seqtag)
+                if clause == "raised" and solver == "default" and c["g_rankdef"] and "Rank(A) < p or Rank([G; A]) < n" in (o.get("raised") or ""):
+                    # the solver-level finding of C03/C05/C06 surfacing through op.solve: G alone is rank deficient ([G; A] has full rank),
+                    # kkt_chol2's first Cholesky factorization of G'W^-2 G succeeds by rounding and the next one fails
+                    sig = "kkt_chol2|rank(G)<n|first-cholesky-misses-singularity|via-op.solve"
                 ck.violation(sig, "op.solve(%r, %r): clause %s fails (truth %s, status %r%s); %s; problem %s" % (
                     fmt, solver, clause, r["truth"], o.get("status"), (", raised " + o["raised"]) if o.get("raised") else "",
                     json.dumps(c["infos"][i]), json.dumps(clean_problem(P))[:600]),
@@ -582,7 +708,7 @@ def run(tier, seed, replay=None):
                 [(o.get("status"), o.get("obj")) for o in c["obs"]], json.dumps(clean_problem(P))[:600]), {"problem": P, "observations": c["obs"]})
     # the default solver must not give up on a substantial part of the regular problems
     reg_cases = [c for c in judged_cases if c["regular"] and not c["rankdef"]]
-    unk = [c for c in reg_cases if any(o.get("status") == "unknown" for o, (_, sv) in zip(c["obs"], COMBOS) if sv == "default")]
+    unk = [c for c in reg_cases if any(o.get("status") == "unknown" for o, (_, sv) in zip(c["obs"], c["combos"]) if sv == "default")]
     ck.extra["default_unknown_on_regular"] = [len(unk), len(reg_cases)]
     if len(reg_cases) >= 50 and len(unk) > 0.10 * len(reg_cases):
         ck.violation("op.solve|default-solver-gives-up", "the default solver ended 'unknown' on %d of %d regular problems" % (len(unk), len(reg_cases)),
